@@ -73,6 +73,8 @@ def h_llc(v, body, child, parent):
     return bytes([0xaa, 0xaa, 0x03, 0, 0, 0]) + struct.pack("!H", _ethertype(child, body))
   if v == "snapx":
     return bytes([0xaa, 0xaa, 0x03, 0, 0, 0x0c]) + struct.pack("!H", 0x2000)
+  if v == "snapi":            # SNAP behind a two-octet (I-format) control field
+    return bytes([0xaa, 0xaa, 0x00, 0x02, 0, 0, 0x0c]) + struct.pack("!H", 0x2000)
   raise KeyError(v)
 
 
@@ -225,10 +227,10 @@ def h_vxlan(v, body, child, parent):
   return struct.pack("!BBBB", 0x08, 0, 0, 0) + bytes([0x00, 0x12, 0x34, 0])
 
 
-def _dhcp_fixed(op):
+def _dhcp_fixed(op, sname=b"", file=b""):
   return (struct.pack("!BBBBIHH", op, 1, 6, 0, 0x3903f326, 0, 0x8000) +
           b"\0" * 4 + (IP4_DST if op == 2 else b"\0" * 4) + b"\0" * 8 +
-          MAC_SRC + b"\0" * 10 + b"\0" * 64 + b"\0" * 128)
+          MAC_SRC + b"\0" * 10 + sname.ljust(64, b"\0") + file.ljust(128, b"\0"))
 
 
 def h_dhcp(v, body, child, parent):
@@ -239,6 +241,9 @@ def h_dhcp(v, body, child, parent):
     return _dhcp_fixed(1) + magic
   if v == "end":
     return _dhcp_fixed(1) + magic + b"\xff"
+  if v == "overload":         # option 52: more options in the sname and file fields
+    return (_dhcp_fixed(2, bytes([12, 2]) + b"h1" + b"\xff", bytes([15, 7]) + b"example" + b"\xff") + magic +
+            bytes([52, 1, 3, 53, 1, 2, 255]))
   if v == "disc":
     o = bytes([53, 1, 1, 55, 4, 1, 3, 6, 15, 61, 7, 1]) + MAC_SRC + bytes([50, 4]) + IP4_SRC + b"\xff"
     return _dhcp_fixed(1) + magic + o
